@@ -16,7 +16,19 @@ def custom(ctx):
     ctx.extra["model_comparison"] = "none: the model has no bytes to predict; the run below is the property's own oracle"
 
 
+def shrink(req):
+    """history requests: drop one item of the sequence at a time (two items is the smallest history)"""
+    f = req.split("\t")
+    if f[0] != "C07.history" or len(f) <= 3:
+        return
+    for i in range(1, len(f)):
+        yield "\t".join(f[:i] + f[i + 1:])
+
+
 def nontrivial(req, obs):
+    if req.startswith("C07.history"):
+        # both back ends are in the sequence and at least one item is an accepted program
+        return "backends=2" in obs and "ok[" in obs
     # accepted-program streams: the compilation succeeded; diagnostics streams: the program really is rejected
     if "\tdiag:" in req or "\tsrc:" in req:
         return obs.startswith("err")
@@ -49,6 +61,7 @@ SPEC = {
     "harness": "c07",
     "custom": custom,
     "nontrivial": nontrivial,
+    "shrink": shrink,
     "rule": "accepted programs: generated shader files (up to 10 resources, 6 helpers with call graphs, 5 static globals threaded on "
             "Metal, 3 pipelines) x 4 targets, name-clash programs, programs whose functions share their name with a struct / enum / "
             "cbuffer of the same scope (accepted since fix 31dddea) x 4 targets, buffer addresses in 2-4 bind groups with tied inline "
